@@ -161,7 +161,89 @@ def in_property_domain(inp):
 # ------------------------------------------------------------------------------------------------
 # running the real implementation
 # ------------------------------------------------------------------------------------------------
+def _strip_edits(inp):
+    out = {k: v for k, v in inp.items() if k not in ("edits", "pre")}
+    return out
+
+
+def initial_config(inp):
+    """the configuration the processor is FIRST built with; the edits then lead to the configuration `inp`"""
+    ini = json.loads(json.dumps(_strip_edits(inp)))
+    ini["history"] = []
+    for e in inp["edits"]:
+        op = e["op"]
+        if op == "targets":
+            ini["channels"][e["ch"]]["targets"] = e["old"]
+        elif op == "qobj":
+            ini["channels"][e["ch"]]["seed"] = e["old_seed"]
+        elif op == "coeff":
+            ini["channels"][e["ch"]]["coeff"] = e["old"]
+        elif op == "tlist":
+            ini["channels"][e["ch"]]["tlist"] = e["old"]
+        elif op == "add_pulse":
+            ini["channels"][e["ch"]]["nopulse"] = True
+        elif op == "remove_pulse":
+            ini["channels"].append(dict(e["extra"], ctrl=False))
+        elif op == "drift":
+            ini["drift"] = ini["drift"][:-1]
+    ini["ctrl_order"] = None
+    return ini
+
+
 def build(inp):
+    """the processor in the configuration `inp`.  With "edits": it is first built in an earlier configuration, the
+    calls in "pre" run on it, and it is then edited through the public setters into the configuration `inp`;
+    everything observed afterwards is compared with the history-free model/oracle of the CURRENT configuration."""
+    if not inp.get("edits"):
+        return _build_raw(inp)
+    import qutip
+    from qutip_qip.pulse import Pulse
+    proc, _ = _build_raw(initial_config(inp))
+    log = []
+    run_history(proc, dict(inp, history=inp.get("pre", [])), log)
+    dims = inp["dims"]
+    kind = "step_func"
+
+    def arr(x, what):
+        a = np.array([float(fr(v)) for v in x], dtype=float)
+        proc._c14_user.append((what, a, a.copy()))
+        return a
+
+    def qobj_of(e):
+        dd = [dims[q] for q in e["targets"]]
+        m = rand_herm(e["seed"], int(np.prod(dd))) * float(fr(e.get("scale", [1, 1])))
+        return qutip.Qobj(m, dims=[dd, dd])
+
+    for e in inp["edits"]:
+        op = e["op"]
+        if op == "remove_pulse":
+            proc.remove_pulse(indices=[len(proc.pulses) - 1])      # the extra pulse was appended last
+            continue
+        if op == "drift":
+            d = inp["drift"][-1]
+            proc.add_drift(qobj_of(d), targets=list(d["targets"]))
+            continue
+        ch = inp["channels"][e["ch"]]
+        if op == "add_pulse":
+            proc.add_pulse(Pulse(qobj_of(ch), list(ch["targets"]), tlist=arr(ch["tlist"], "tlist (edit)"),
+                                 coeff=arr(ch["coeff"], "coeff (edit)"), spline_kind=kind, label=ch["label"]))
+            continue
+        pulse = proc.pulses[e["ch"]]
+        if op == "targets":
+            pulse.targets = list(ch["targets"])
+        elif op == "qobj":
+            pulse.qobj = qobj_of(ch)
+        elif op == "coeff":
+            pulse.coeff = arr(ch["coeff"], "coeff (edit)")
+        elif op == "tlist":
+            pulse.tlist = arr(ch["tlist"], "tlist (edit)")
+    _, mats = _build_raw(_strip_edits(inp))
+    if log:
+        proc._c14_prelog = log
+    return proc, mats
+
+
+def _build_raw(inp):
     import qutip
     from qutip_qip.device import Processor
     from qutip_qip.pulse import Pulse
@@ -264,6 +346,8 @@ def build(inp):
         proc.set_tlist({real_label(ch): arr(ch["tlist"], "tlist of %s" % ch["label"]) for ch in inp["channels"]})
     else:
         for ch, q in zip(inp["channels"], ops):
+            if ch.get("nopulse"):
+                continue
             if "cyc" in ch:
                 # Hamiltonian and targets as REGISTERED by add_control(cyclic_permutation=True)
                 ham, tg = proc.get_control(real_label(ch))
@@ -358,6 +442,7 @@ def run_impl(inp):
         except Exception as e:  # construction itself refused
             out["err"]["build"] = repr(e)[:200]
             return out, None, None
+        out["mutated"] += getattr(proc, "_c14_prelog", [])
         run_history(proc, inp, out["mutated"])
         try:
             f = proc.get_full_tlist()
@@ -639,7 +724,10 @@ def oracle_case(inp, impl=None, proc=None, mats=None, solver=False, files=True, 
             fail("get_qobjevo raised on a valid input", repr(e)[:200], "QobjEvo")
         if solver:
             fails += oracle_solver(inp, exp_tot, solver_max_step)
-        if files and labels_own(inp) and not inp.get("family", "").startswith("scale"):
+        # (a pulse whose qobj/targets were edited no longer matches its registered control, which is what a
+        #  reload through set_coeffs rebuilds the pulse from)
+        if files and labels_own(inp) and not inp.get("family", "").startswith("scale") \
+                and not any(e["op"] in ("qobj", "targets") for e in (inp.get("edits") or [])):
             fails += oracle_files(inp, impl, got_tot)
     return fails
 
@@ -741,7 +829,7 @@ def oracle_files(inp, impl, got_tot):
                         proc.save_coeff(fn, inctime=inct)
                         if target == "fresh":
                             blank = dict(inp, channels=[dict(ch, tlist=None, coeff=None) for ch in inp["channels"]],
-                                         mode="direct")
+                                         mode="direct", edits=None, pre=None)
                             proc2, _ = build(blank)
                             proc2.clear_pulses()
                         else:
@@ -849,6 +937,67 @@ def gen_targets(rng, dims):
     n = len(dims)
     k = 1 if (n == 1 or rng.random() < 0.7) else 2
     return rng.sample(range(n), k)
+
+
+def gen_edits(rng):
+    """edits of the LIVE processor through public setters between calls: pulse.targets, pulse.qobj, pulse.coeff,
+    pulse.tlist reassigned, a pulse added / removed, a drift added later"""
+    import itertools
+    inp = gen_valid(rng, nch=rng.choice([2, 2, 3]))
+    inp["mode"] = "direct"
+    inp["family"] = "edits"
+    dims = inp["dims"]
+    chans = inp["channels"]
+    kinds = ["targets", "targets", "qobj", "coeff", "tlist", "add_pulse", "remove_pulse", "drift"]
+    rng.shuffle(kinds)
+    edits, used = [], set()
+    for op in kinds:
+        if len(edits) >= rng.choice([1, 1, 2, 2, 3]):
+            break
+        if op in ("remove_pulse", "drift"):
+            if op == "drift":
+                if not inp["drift"]:
+                    inp["drift"] = [dict(targets=gen_targets(rng, dims), seed=rng.randint(0, 10 ** 6))]
+                edits.append(dict(op="drift"))
+            else:
+                tl = gen_grid(rng)
+                edits.append(dict(op="remove_pulse", extra=dict(
+                    label="gone", targets=gen_targets(rng, dims), seed=rng.randint(0, 10 ** 6),
+                    tlist=[enc(x) for x in tl], coeff=[enc(x) for x in gen_coeff(rng, len(tl) - 1)])))
+            continue
+        m = len(chans) - 1 if op == "add_pulse" else rng.randrange(len(chans))
+        if m in used or (op != "add_pulse" and (len(chans) - 1) in used and m == len(chans) - 1):
+            continue
+        ch = chans[m]
+        if op == "targets":
+            want = [dims[q] for q in ch["targets"]]
+            alts = [list(t) for t in itertools.permutations(range(len(dims)), len(want))
+                    if [dims[q] for q in t] == want and list(t) != ch["targets"]]
+            if not alts:
+                continue
+            edits.append(dict(op="targets", ch=m, old=rng.choice(alts)))
+        elif op == "qobj":
+            edits.append(dict(op="qobj", ch=m, old_seed=ch["seed"] + 17))
+        elif op == "coeff":
+            edits.append(dict(op="coeff", ch=m, old=[enc(x) for x in gen_coeff(rng, len(ch["coeff"]))]))
+        elif op == "tlist":
+            old = gen_grid(rng, npts=len(ch["tlist"]))
+            edits.append(dict(op="tlist", ch=m, old=[enc(x) for x in old]))
+        else:
+            edits.append(dict(op="add_pulse", ch=m))
+        used.add(m)
+    if not edits:
+        edits.append(dict(op="qobj", ch=0, old_seed=chans[0]["seed"] + 17))
+    # add_pulse must come after in-place edits of existing pulses and a removal of the extra pulse
+    edits.sort(key=lambda e: {"remove_pulse": 1, "add_pulse": 2}.get(e["op"], 0))
+    inp["edits"] = edits
+    pre = [rng.choice(["analytic", "qobjevo0", "qobjevo1"])] + \
+          [rng.choice(HISTORY_OPS) for _ in range(rng.choice([0, 0, 1]))]
+    rng.shuffle(pre)
+    inp["pre"] = pre
+    if rng.random() < 0.3:
+        add_history(rng, inp)
+    return inp
 
 
 def gen_keywords(rng):
@@ -1194,6 +1343,8 @@ def branch_tags(inp):
         tags.add("channels sharing one coefficient array")
     if inp.get("family"):
         tags.add(inp["family"])
+    for e in inp.get("edits") or []:
+        tags.add("edit:" + e["op"])
     for d in inp.get("drift", []):
         if "cyclic" in d:
             tags.add("add_drift cyclic_permutation=%s on %d subsystem(s)" % (d["cyclic"], len(d["targets"])))
@@ -1258,6 +1409,8 @@ def correspond(ctx):
         inputs.append(("scaled", gen_scaled(rng)))
     for _ in range(ctx.n(100, 700)):
         inputs.append(("keywords", gen_keywords(rng)))
+    for _ in range(ctx.n(110, 700)):
+        inputs.append(("edits", gen_edits(rng)))
     # histories on one processor: a third of the valid-family inputs so far run earlier calls first
     nsolv = ctx.n(8, 40)
     for kind, inp in inputs:
@@ -1282,7 +1435,7 @@ def correspond(ctx):
     # file-model cases: valid property-domain inputs, every 4th
     filecases = []
     for idx, c in enumerate(cases):
-        if in_property_domain(c) and labels_own(c) and not c.get("family", "").startswith("scale") and len(filecases) < ctx.n(60, 300) and idx % 3 == 0:
+        if in_property_domain(c) and labels_own(c) and not c.get("family", "").startswith("scale") and not c.get("edits") and len(filecases) < ctx.n(60, 300) and idx % 3 == 0:
             filecases.append((idx, bool(idx % 2)))
     models, fres = run_models(ctx.tier, cases, filecases)
 
@@ -1326,7 +1479,7 @@ def correspond(ctx):
         # --- property oracle on the real code
         use_solver = in_property_domain(inp) and n_solver > 0 and (
             kind in ("valid", "leak-family", "corpus") or (kind == "shared-labels" and idx % 5 == 0)
-            or (kind == "shared-arrays" and idx % 4 == 0) or (kind == "keywords" and idx % 6 == 0))
+            or (kind == "shared-arrays" and idx % 4 == 0) or (kind == "keywords" and idx % 6 == 0) or (kind == "edits" and idx % 8 == 0))
         if use_solver:
             n_solver -= 1
         light = kind not in ("corpus",) and idx % 2 != 0       # the heavier re-runs on every second case
@@ -1392,7 +1545,8 @@ def file_corr(corr, inp, inct, mres, impl):
             corr.tally("file-model:inctime=%s" % inct)
             # read side
             try:
-                blank = dict(inp, channels=[dict(ch, tlist=None, coeff=None) for ch in inp["channels"]], mode="direct")
+                blank = dict(inp, channels=[dict(ch, tlist=None, coeff=None) for ch in inp["channels"]], mode="direct",
+                             edits=None, pre=None)
                 proc2, _ = build(blank)
                 proc2.clear_pulses()
                 ret = proc2.read_coeff(fn, inctime=inct)
@@ -1582,6 +1736,7 @@ def search(ctx, broken):
     pool += [gen_shared_arrays(rng) for _ in range(ctx.n(60, 200))]
     pool += [gen_scaled(rng) for _ in range(ctx.n(80, 200))]
     pool += [gen_keywords(rng) for _ in range(ctx.n(80, 200))]
+    pool += [gen_edits(rng) for _ in range(ctx.n(80, 200))]
     for inp in pool:
         try:
             fs = oracle_case(inp)
